@@ -31,8 +31,10 @@ STEMS = ["http://x", "http://x/a", "http://x/a_b", "http://y#b", "x", "", "https
          "https://github.com/o/r/pull", "http://github.com/o/r/issues", "https://gitlab.com/o/r/issues", "https://github.com/o/r/issue",
          # stems ending in a delimiter character: together with a multi-character delimiter this gives overlapping
          # occurrences right before the identifier ("x_" + "__" + "1" = "x___1")
-         "http://x_", "http://x:", "http://x/", "urn:a/#"]
-DELIMS_ALL = ["#", "/", "_", "-", ":", "=", "::", "__", "//", "/#/"]
+         "http://x_", "http://x:", "http://x/", "urn:a/#",
+         # whitespace at the edge of a URI is part of the string (what was learned from must compress, any strip() breaks it)
+         "  http://x/a", "\thttp://y", "\u00a0http://x", "urn:sample"]
+DELIMS_ALL = ["#", "/", "_", "-", ":", "=", "::", "__", "//", "/#/", " "]
 TAILS = ["1", "2", "0001", "abc", "A1", "é", "é1", "٣", "²", "", "a-b", "a b", "a.b", "1/", "x y", "GO_1", "a#b", "p_q"]
 
 
@@ -87,7 +89,7 @@ def cases(draw, tier="quick"):
     else:
         delimiters = draw(st.lists(st.sampled_from(DELIMS_ALL), unique=True, min_size=1, max_size=4))
     cutoff = draw(st.sampled_from([None, None, 0, 1, 2, 3, 4]))
-    metaprefix = draw(st.sampled_from(["ns", "ns", "p", "", "x.", "ns1", "é"]))
+    metaprefix = draw(st.sampled_from(["ns", "ns", "p", "", "x.", "ns1", "é", " ns", "ns\u00a0"]))
     conv = None
     if draw(st.integers(0, 2)) == 0:
         ups = draw(st.lists(st.sampled_from(["http://x/", "http://x/a_", "http://y#", "x", "https://w3.org/",
